@@ -332,3 +332,129 @@ def fold_mark_unary_minus(repo: Repo, max_len: int = 5) -> dict | None:
         return None
     except (TypeError, KeyError, IndexError, ValueError, AttributeError):
         return None
+
+
+# ------------------------------------------------------------------------------------------------ layout calculators
+def _layout_kinds() -> dict[str, dict]:
+    """Field kinds for the layout folds: (type size, alignment, bits, storage family)."""
+    return {
+        "u8": {"size": 1, "align": 1}, "u16": {"size": 2, "align": 2}, "u32": {"size": 4, "align": 4}, "u64": {"size": 8, "align": 8},
+        "i24": {"size": 3, "align": 4}, "c5": {"size": 5, "align": 1}, "dyn": {"size": None, "align": 1}, "dyn4": {"size": None, "align": 4},
+        "e16": {"size": 2, "align": 2, "enum_of": "u16"},
+        "u8:3": {"size": 1, "align": 1, "bits": 3}, "u8:5": {"size": 1, "align": 1, "bits": 5}, "u16:4": {"size": 2, "align": 2, "bits": 4},
+        "u32:12": {"size": 4, "align": 4, "bits": 12}, "e16:4": {"size": 2, "align": 2, "bits": 4, "enum_of": "u16"}, "u16:12": {"size": 2, "align": 2, "bits": 12},
+        "u32@8": {"size": 4, "align": 4, "offset": 8}, "u8@1": {"size": 1, "align": 1, "offset": 1},
+    }
+
+
+def _ref_struct_layout(kinds: list[dict], align: bool):
+    """Reference layout: C rules plus this library's documented conventions (explicit offsets lead, everything behind a dynamic field has no
+    static offset, a bit-field unit is opened per storage type, straddling is an error)."""
+    offset: int | None = 0
+    alignment = 0
+    unit_type = None
+    unit_off: int | None = 0
+    remaining = 0
+    offs: list = []
+    for k in kinds:
+        recorded = k.get("offset")
+        if k.get("offset") is not None:
+            offset = k["offset"]
+        if align and offset is not None:
+            offset += -offset & (k["align"] - 1)
+        alignment = max(alignment, k["align"])
+        if k.get("bits"):
+            storage = k.get("enum_of") or ("u%d" % (k["size"] * 8))
+            if remaining == 0 or storage != unit_type or (unit_type is not None and offset is not None and unit_off is not None and offset > unit_off + k["size"]):
+                unit_type, remaining, unit_off = storage, k["size"] * 8, offset
+                if offset is not None:
+                    offset += k["size"]
+                recorded = unit_off
+            remaining -= k["bits"]
+            if remaining < 0:
+                return "raise"
+        else:
+            unit_type, unit_off, remaining = None, 0, 0
+            recorded = offset
+            if offset is not None:
+                offset = None if k["size"] is None else offset + k["size"]
+        offs.append(recorded)
+    if align and offset is not None:
+        offset += -offset & (alignment - 1)
+    return offset, alignment, offs
+
+
+def fold_struct_layout(repo: Repo, max_len: int = 2) -> dict | None:
+    """StructureMetaType._calculate_size_and_offsets and UnionMetaType._calculate_size_and_offsets interpreted on every sequence of up to ``max_len``
+    field kinds (plus a fixed set of longer ones), packed and aligned, against the reference layout."""
+    import itertools
+
+    sfi = repo.func("types/structure.py", "StructureMetaType._calculate_size_and_offsets")
+    ufi = repo.func("types/structure.py", "UnionMetaType._calculate_size_and_offsets")
+    kinds = _layout_kinds()
+    enum_meta = Sym("EnumMetaType")
+    types: dict[str, Sym] = {}
+
+    def type_of(name: str, k: dict) -> Sym:
+        base = name.split(":")[0].split("@")[0]
+        if base not in types:
+            attrs: dict[str, Any] = {"size": k["size"], "__name__": base, "alignment": k["align"]}
+            if k.get("enum_of"):
+                attrs["is_enum"] = True
+                attrs["type"] = type_of(k["enum_of"], kinds[k["enum_of"]])
+            types[base] = Sym(f"type:{base}", attrs)
+        return types[base]
+
+    def length(o):
+        if isinstance(o, Sym):
+            if o.attrs.get("size") is None:
+                raise TypeError("Dynamic size")
+            return o.attrs["size"]
+        return len(o)
+
+    env = {"isinstance": Host(lambda o, k: k is enum_meta and isinstance(o, Sym) and bool(o.attrs.get("is_enum"))), "EnumMetaType": enum_meta, "len": Host(length)}
+    seqs: list[tuple[str, ...]] = []
+    names = list(kinds)
+    for n in range(0, max_len + 1):
+        seqs += list(itertools.product(names, repeat=n))
+    seqs += [("u8", "u32", "u16"), ("u8:3", "u8:5", "u8:3"), ("u16:4", "u16:12", "u16:4"), ("u8", "dyn", "u32", "u8"), ("u8:3", "u16:4", "u8:3", "u32"),
+             ("u32", "u8:3", "u8@1", "u16"), ("c5", "u64", "u8", "e16:4", "u16:4"), ("u8", "i24", "u8", "u64"), ("u8:3", "dyn4", "u8:3", "u32")]
+    out: dict = {"cases": 0, "struct_bad": [], "union_bad": []}
+    try:
+        for seq in seqs:
+            for align in (False, True):
+                ks = [kinds[n_] for n_ in seq]
+                fields = [Sym(f"field{i}", {"_name": f"f{i}", "name": f"f{i}", "type": type_of(n_, k), "bits": k.get("bits"), "offset": k.get("offset"),
+                                           "alignment": k["align"]}) for i, (n_, k) in enumerate(zip(seq, ks))]
+                want = _ref_struct_layout(ks, align)
+                try:
+                    r = Evaluator(env, steps=20000).call_user(UserFunc(sfi.node), [Sym("cls"), fields, align], {})
+                    got: Any = (r[0], r[1], [f.attrs["offset"] for f in fields])
+                except Raised:
+                    got = "raise"
+                except ArithmeticError as e:
+                    got = f"{type(e).__name__}: {e}"
+                out["cases"] += 1
+                if got != want and len(out["struct_bad"]) < 5:
+                    out["struct_bad"].append((seq, "aligned" if align else "packed", got, want))
+                # union: size of the largest member (None when one is dynamic), rounded up to the largest alignment in aligned mode
+                if not any(k.get("bits") or k.get("offset") is not None for k in ks):
+                    fields = [Sym(f"field{i}", {"_name": f"f{i}", "type": type_of(n_, k), "bits": None, "offset": None, "alignment": k["align"]})
+                              for i, (n_, k) in enumerate(zip(seq, ks))]
+                    sizes = [k["size"] for k in ks]
+                    usize: int | None = None if any(s is None for s in sizes) else max(sizes, default=0)
+                    ualign = max([k["align"] for k in ks], default=0)
+                    if align and usize is not None:
+                        usize += -usize & (ualign - 1)
+                    try:
+                        ur: Any = tuple(Evaluator(env, steps=20000).call_user(UserFunc(ufi.node), [Sym("cls"), fields, align], {}))
+                    except ArithmeticError as e:
+                        ur = f"{type(e).__name__}: {e}"
+                    out["cases"] += 1
+                    if ur != (usize, ualign) and len(out["union_bad"]) < 5:
+                        out["union_bad"].append((seq, "aligned" if align else "packed", ur, (usize, ualign)))
+        return out
+    except Refused:
+        return None
+    except (TypeError, KeyError, IndexError, ValueError, AttributeError):
+        return None
